@@ -69,3 +69,31 @@ package ro
 //@   props C11 C13
 //@   track source.* subject.*
 //@   ensures [never-touches-the-source|C11] !called(source.SubscribeWithContext) && called(subject.SubscribeWithContext)
+
+// The Share flavours are ShareWithConfig with fixed options: these are their whole meaning.
+
+//@ func Share
+//@   props C11
+//@   track call.ShareWithConfig
+//@   ensures [resets-on-error-completion-and-last-unsubscription|C11] trace(call.ShareWithConfig(fields(_, true, true, true)))
+
+//@ func ShareReplay
+//@   props C11
+//@   track call.ShareWithConfig
+//@   ensures [replays-after-completion-never-resets-on-refcount|C11] trace(call.ShareWithConfig(fields(_, true, false, false)))
+
+//@ func ShareReplayWithConfig
+//@   props C11
+//@   track call.ShareWithConfig
+//@   ensures [replays-after-completion-resets-on-refcount-as-configured|C11] trace(call.ShareWithConfig(fields(_, true, false, config.ResetOnRefCountZero)))
+
+//@ func ShareReplayWithConfig$1
+//@   note the connector: a replay subject of the configured size
+//@   props C11
+//@   track call.NewReplaySubject
+//@   ensures [connector-is-a-replay-subject-of-the-configured-size|C11] trace(call.NewReplaySubject(bufferSize))
+
+//@ func ShareReplay$1
+//@   props C11
+//@   track call.NewReplaySubject
+//@   ensures [connector-is-a-replay-subject-of-the-configured-size|C11] trace(call.NewReplaySubject(bufferSize))
